@@ -292,6 +292,29 @@ func (db *RockDB) zDelItem(table, rk, member []byte,
 	return 1, nil
 }
 
+// a member repeated in one command is set only once, with the last score given for it.
+// (each member is checked against the db before the write batch is committed, so a repeated
+// one would be counted twice and leave more than one score index)
+func dedupScorePairs(args []common.ScorePair) []common.ScorePair {
+	if len(args) < 2 {
+		return args
+	}
+	last := make(map[string]int, len(args))
+	for i, a := range args {
+		last[string(a.Member)] = i
+	}
+	if len(last) == len(args) {
+		return args
+	}
+	uniq := make([]common.ScorePair, 0, len(last))
+	for i, a := range args {
+		if last[string(a.Member)] == i {
+			uniq = append(uniq, a)
+		}
+	}
+	return uniq
+}
+
 func (db *RockDB) ZAdd(ts int64, key []byte, args ...common.ScorePair) (int64, error) {
 	if len(args) == 0 {
 		return 0, nil
@@ -299,6 +322,7 @@ func (db *RockDB) ZAdd(ts int64, key []byte, args ...common.ScorePair) (int64, e
 	if len(args) > MAX_BATCH_NUM {
 		return 0, errTooMuchBatchSize
 	}
+	args = dedupScorePairs(args)
 	keyInfo, err := db.prepareCollKeyForWrite(ts, ZSetType, key, nil)
 	if err != nil {
 		return 0, err
@@ -457,6 +481,7 @@ func (db *RockDB) ZRem(ts int64, key []byte, members ...[]byte) (int64, error) {
 	if len(members) > MAX_BATCH_NUM {
 		return 0, errTooMuchBatchSize
 	}
+	members = dedupArgs(members)
 	keyInfo, err := db.GetCollVersionKey(ts, ZSetType, key, false)
 	if err != nil {
 		return 0, err
